@@ -101,6 +101,39 @@ def initial_state(model, default):
     return st
 
 
+class Selection:
+    """reference model of `connection X`: by name first (case-insensitive), then by app id, in order of opening"""
+
+    def __init__(self):
+        self.opened = []          # connection names in order of opening
+        self.app_id = {}          # name -> app id (last set_app_id with a non-empty string)
+        self.selected = None
+
+    def saw(self, cl, nm):
+        if nm not in self.opened:
+            self.opened.append(nm)
+        if cl.name == 'set_app_id' and cl.args and cl.args[0].kind == 's' and cl.args[0].value:
+            self.app_id[nm] = cl.args[0].value
+
+    def command(self, meta):
+        """-> 'ok' | 'unknown' | None (no change requested)"""
+        to = meta.get('to')
+        if to == 'all':
+            self.selected = None
+            return 'ok'
+        if to is None:
+            return None
+        for nm in self.opened:
+            if nm.lower() == to.lower():
+                self.selected = nm
+                return 'ok'
+        for nm in self.opened:
+            if nm in self.app_id and self.app_id[nm].lower() == to.lower():
+                self.selected = nm
+                return 'ok'
+        return 'unknown'
+
+
 # ----------------------------------------------------------------------------- command generation
 
 BAD_MATCHERS = ['wl_surface(', '[wl_surface', 'a.b.c', 'a:b:c', 'wl_surface.commit(x) y', 'wl surface', 'wl_surface$',
@@ -152,7 +185,7 @@ def gen_commands(rng, voc, n, weights, spell_gdb=False):
             elif r < 0.5:
                 out.append(['cmd', word + ' nosuch', {'t': 'connection', 'to': None, 'bad': True}])
             else:
-                nm = rng.choice(voc.conns + ['A', 'B'])
+                nm = rng.choice(voc.conns + ['A', 'B', 'b', 'c', 'org.gnome.gedit', 'x.b'])
                 out.append(['cmd', word + ' ' + (nm.lower() if rng.random() < 0.3 else nm), {'t': 'connection', 'to': nm}])
         else:
             out.append(['cmd', rng.choice(['help', 'help list', 'matcher wl_surface', 'h', 'm x.y', 'help matcher']), {'t': 'other'}])
@@ -228,6 +261,9 @@ def segments(rec):
 
 
 def key_of(cl, names, t0):
+    if getattr(cl.target, 'orphan', False):
+        # the tool cannot resolve the target: shown as `unresolved type@id?` with no connection name
+        return ('', cl.target.iface, cl.target.id, '?', cl.name, (cl.t_us - t0) / 1e6)
     return (names[cl.conn], cl.target.iface, cl.target.id, W.letters(cl.target.gen), cl.name, (cl.t_us - t0) / 1e6)
 
 
@@ -243,9 +279,10 @@ def judge(sc, st, res, tr, cmd_metas, V, want):
     segs = segments(res.rec)
     fstate = initial_state(cfg.get('filter_model'), 'star')
     bstate = initial_state(cfg.get('break_model'), 'bang')
+    sel = Selection()
     selected = None           # connection name or None
     recorded = []             # closures in arrival order
-    opened = []               # connection names opened so far
+    opened = sel.opened       # connection names opened so far
     line_items = [it for _, it in st.lines]
     li = 0
     ci = 0
@@ -269,9 +306,10 @@ def judge(sc, st, res, tr, cmd_metas, V, want):
                 continue
             cl = it
             nm = names[cl.conn]
-            if nm not in opened:
-                opened.append(nm)
+            sel.saw(cl, nm)
             recorded.append(cl)
+            if getattr(cl.target, 'orphan', False):
+                V.bump('probe_unresolvable_target_message')
             sel_ok = selected is None or selected == nm
             fv = fstate.value(cl, nm)
             bv = bstate.value(cl, nm)
@@ -330,15 +368,14 @@ def judge(sc, st, res, tr, cmd_metas, V, want):
                     if state.absorbed:
                         V.bump('probe_absorbed_alternatives')
             elif t == 'connection':
-                to = meta.get('to')
-                if to == 'all':
-                    selected = None
-                elif to is not None and not meta.get('bad'):
-                    if to.upper() in opened:
-                        selected = to.upper()
-                        V.bump('probe_connection_selected')
-                    elif not errors:
-                        rep('C06', 'C06/shown-nonmatch', 'connection-unknown', 'selecting unknown connection %r gave no error' % to)
+                r = sel.command(meta)
+                selected = sel.selected
+                if r == 'ok' and meta.get('to') != 'all':
+                    V.bump('probe_connection_selected')
+                    if selected.lower() != meta['to'].lower():
+                        V.bump('probe_connection_selected_by_app_id')
+                elif r == 'unknown' and not errors:
+                    rep('C06', 'C06/shown-nonmatch', 'connection-unknown', 'selecting unknown connection %r gave no error' % meta.get('to'))
             elif t == 'list':
                 judge_list(seg, meta, fstate, selected, recorded, names, t0, V, rep, opened)
     # C06 not-recorded: every message is in Connection.messages() in order
